@@ -122,6 +122,9 @@ class CG:
         for c in model.all_classes():
             if c.name == "Node" and c.rel.endswith("_ast.py"):
                 self._node_cls = c
+            # enum classes have their members from import time on: they count as instantiated
+            if any(str(b).split(".")[-1].rstrip("_") in ("Enum", "IntEnum", "Flag", "IntFlag") for b in c.ext_bases):
+                self.instantiated.add(c)
         self.units: Dict[Unit, List[Edge]] = {}
         self.sites: Dict[Unit, List[RaiseSite]] = {}
         self.typers: Dict[Unit, Typer] = {}
@@ -315,6 +318,11 @@ class CG:
     def _scan_call(self, u: Unit, ty: Typer, n: ast.Call, edges: List[Edge], sites: List[RaiseSite]) -> None:
         m = self.model
         f = n.func
+        if isinstance(f, ast.Name) and f.id == "cast" and len(n.args) == 2 and ty.local("cast") is None:
+            r0 = m.resolve_name(ty.mod, "cast")
+            if r0 is None or (isinstance(r0, tuple) and r0[0] == "ext" and "cast" in str(r0[1])):
+                self._scan_cast(u, ty, n, sites)
+                return
         # ---- builtins with implicit raises
         if isinstance(f, ast.Name) and ty.local(f.id) is None and m.resolve_name(ty.mod, f.id) is None:
             name = f.id
@@ -336,6 +344,8 @@ class CG:
                 sites.append(RaiseSite(u, n, "StopIteration", "ext", src_of(n)))
             elif name == "super":
                 pass
+            elif name == "cast" and len(n.args) == 2:
+                self._scan_cast(u, ty, n, sites)
             return
 
         # ---- super().m(...)
@@ -465,6 +475,19 @@ class CG:
             self.external_calls["<callable>" + f.id] = self.external_calls.get("<callable>" + f.id, 0) + 1
             return
         self.external_calls["<expr-call>"] = self.external_calls.get("<expr-call>", 0) + 1
+
+    def _scan_cast(self, u: Unit, ty: Typer, n: ast.Call, sites: List[RaiseSite]) -> None:
+        """typing.cast(C, e) asserts a class without testing it: if e is not a C
+        the next attribute access on the result raises AttributeError.  A site
+        is recorded unless the static type of e already is (a subclass of) C."""
+        m = self.model
+        c = m.resolve_expr_static(ty.mod, n.args[0]) if isinstance(n.args[0], (ast.Name, ast.Attribute)) else None
+        if not isinstance(c, ClassInfo):
+            return
+        at = ty.type_of(n.args[1])
+        if at and all(isinstance(a, Inst) and m.is_subclass(a.cls, c) for a in at):
+            return
+        sites.append(RaiseSite(u, n, "AttributeError", "cast", src_of(n)))
 
     def _ply_edges(self, u: Unit, n: ast.AST, edges: List[Edge]) -> None:
         m = self.model
